@@ -40,10 +40,20 @@ mod verif_kani {
         let a: [u8; 15] = kani::any();
         let n: usize = kani::any();
         kani::assume(n <= 15);
-        let i = DbValue::Bytes(a[..n].to_vec()).store_db_value(&mut storage).unwrap();
+        let Ok(i) = DbValue::Bytes(a[..n].to_vec()).store_db_value(&mut storage) else {
+            assert!(false);
+            return;
+        };
         assert!(i.is_value());
-        match DbValue::load_db_value(i, &storage).unwrap() {
-            DbValue::Bytes(v) => assert!(v == a[..n].to_vec()),
+        match DbValue::load_db_value(i, &storage) {
+            Ok(DbValue::Bytes(v)) => {
+                assert!(v.len() == n);
+                let mut k = 0;
+                while k < n {
+                    assert!(v[k] == a[k]);
+                    k += 1;
+                }
+            }
             _ => assert!(false),
         }
     }
@@ -60,23 +70,29 @@ mod verif_kani {
         kani::assume(n <= 4);
         kani::assume(a[0] < 128 && a[1] < 128 && a[2] < 128 && a[3] < 128);
         let s = String::from_utf8(a[..n].to_vec()).unwrap();
-        let i = DbValue::String(s.clone()).store_db_value(&mut storage).unwrap();
+        let Ok(i) = DbValue::String(s.clone()).store_db_value(&mut storage) else {
+            assert!(false);
+            return;
+        };
         assert!(i.is_value());
-        match DbValue::load_db_value(i, &storage).unwrap() {
-            DbValue::String(v) => assert!(v == s),
+        match DbValue::load_db_value(i, &storage) {
+            Ok(DbValue::String(v)) => assert!(v == s),
             _ => assert!(false),
         }
     }
 
     // C07: load_db_value on an arbitrary 16-byte value index never panics.
     // One harness per group of type nibbles (a single harness over all of them does not finish).
-    fn load_any(types: &[u8], max_size: u8) {
+    fn load_any(lo: u8, hi: u8, max_size: u8) {
         let storage = recordless_storage();
         let raw: [u8; 16] = kani::any();
-        let idx = DbValueIndex::deserialize(&raw).unwrap();
-        kani::assume(types.contains(&idx.get_type()));
-        kani::assume(idx.size() <= max_size);
-        let _ = DbValue::load_db_value(idx, &storage);
+        // (no unwrap on Result<_, DbError>: the Debug formatting of the error dominates CBMC's time)
+        if let Ok(idx) = DbValueIndex::deserialize(&raw) {
+            let t = idx.get_type();
+            kani::assume(lo <= t && t <= hi);
+            kani::assume(idx.size() <= max_size);
+            let _ = DbValue::load_db_value(idx, &storage);
+        }
     }
 
     #[kani::proof]
@@ -84,23 +100,37 @@ mod verif_kani {
     #[kani::stub(core::panic::Location::caller, stub_caller)]
     #[kani::stub(alloc::fmt::format, stub_format)]
     fn c07_load_db_value_scalar_types() {
-        load_any(&[2, 3, 4], 15);
+        load_any(2, 4, 15);
     }
 
+    // type nibbles 0 and 10..15 are not value types
     #[kani::proof]
     #[kani::unwind(20)]
     #[kani::stub(core::panic::Location::caller, stub_caller)]
     #[kani::stub(alloc::fmt::format, stub_format)]
     fn c07_load_db_value_unknown_types() {
-        load_any(&[0, 10, 11, 12, 13, 14, 15], 15);
+        let t: u8 = kani::any();
+        if t == 0 {
+            load_any(0, 0, 15);
+        } else {
+            load_any(10, 15, 15);
+        }
     }
 
     #[kani::proof]
     #[kani::unwind(20)]
     #[kani::stub(core::panic::Location::caller, stub_caller)]
     #[kani::stub(alloc::fmt::format, stub_format)]
-    fn c07_load_db_value_bytes_and_vec_types() {
-        load_any(&[1, 6, 7, 8, 9], 15);
+    fn c07_load_db_value_bytes_type() {
+        load_any(1, 1, 15);
+    }
+
+    #[kani::proof]
+    #[kani::unwind(20)]
+    #[kani::stub(core::panic::Location::caller, stub_caller)]
+    #[kani::stub(alloc::fmt::format, stub_format)]
+    fn c07_load_db_value_vec_types() {
+        load_any(6, 9, 15);
     }
 
     #[kani::proof]
@@ -108,6 +138,6 @@ mod verif_kani {
     #[kani::stub(core::panic::Location::caller, stub_caller)]
     #[kani::stub(alloc::fmt::format, stub_format)]
     fn c07_load_db_value_string_type_size4() {
-        load_any(&[5], 4);
+        load_any(5, 5, 4);
     }
 }
